@@ -424,6 +424,19 @@ def f8(ctx):
                       % (cname, sorted(ha) or 'super()', sorted(ea) or 'super()'),
                       '%s: __hash__ uses %s which __eq__ does not compare (%s): equal objects can '
                       'hash differently' % (cname, sorted(ha - ea), sorted(ea)), mod.loc(hs))
+            # what __eq__ reads of the other operand is what it reads of self: a field left out on
+            # one side compares a value with a different one (tuples of unequal length are never
+            # equal: the object is not even equal to itself)
+            ps = [a.arg for a in eq.args.posonlyargs + eq.args.args]
+            if len(ps) >= 2:
+                oa = _self_attrs(eq, ps[1])
+                sa_ = _self_attrs(eq, ps[0])
+                if oa:
+                    ctx.check('%s.%s/eq-symmetric' % (mname.split('.')[-1], cname), oa == sa_,
+                              '%s.__eq__ reads the same attributes of both operands (%s)' % (cname, sorted(sa_)),
+                              '%s.__eq__ reads %s of `%s` but %s of `%s`: the comparison pairs different '
+                              'fields (or tuples of different length, which are never equal)'
+                              % (cname, sorted(sa_), ps[0], sorted(oa), ps[1]), mod.loc(eq))
     ctx.require(n >= 3, 'only %d classes with both __eq__ and __hash__' % n)
 
 
